@@ -31,22 +31,13 @@ def classify(out):
 
 
 def run(mod, tier, seed, replay=None):
-    pid = mod.PID
-    rep = Report(pid, tier, seed)
-    rep.assumptions = list(getattr(mod, "ASSUMPTIONS", []))
-    rng = random.Random(seed)
-    build_log = ""
-    try:
-        rc, build_log = build_all(getattr(mod, "HARNESS", ("fn",)))
-    except BuildError as e:
-        rep.coverage = {"obligations": 1, "discharged": 0, "checker_cmd": "make (coq/)", "trusted_base": TRUSTED_BASE,
-                        "explanation": "build failed at stage %s" % e.stage}
-        rep.violation({"kind": "build", "stage": e.stage}, {"stage": e.stage, "log": e.log[-4000:],
-                      "broken": "build stage '%s' no longer succeeds against the current source" % e.stage}, found_input=False)
-        return rep.finish()
+    import engine
+    return engine.run_property(mod, tier, seed, replay)
 
-    # 1. theorems
-    thms, tlog, failing = check_theorems(pid)
+
+def fn_part(mod, tier, rng, rep, replay, thms, tlog, failing, rc, build_log):
+    pid = mod.PID
+    seed = rep.seed
     n_ok = sum(1 for t in thms if t["ok"])
     # 2. cases
     if replay:
@@ -149,20 +140,7 @@ def run(mod, tier, seed, replay=None):
                                 "broken": "correspondence check for op %d (%s)" % (op, mod.OPNAMES.get(op, "?")),
                                 "cases": [c.to_json()], "case_line": c.line(), "impl_output": impl[i], "model_output": model[i],
                                 "occurrences": len(idxs)}, found_input=False)
-    # broken theorem
-    if failing is not None or n_ok < len(thms):
-        found = bool(groups)
-        if not found:
-            rep.violation({"kind": "theorem", "name": failing}, {"broken": "theorem %s in coq/Props/%s.v no longer checks" % (failing, pid),
-                          "log": tlog[-3000:]}, found_input=False)
-    if rc != 0 and failing is None:
-        # some other file in the development failed; report only when it is in this property's closure
-        bad = [l for l in build_log.split("\n") if "Error" in l or "error" in l]
-        rel = [f for f in getattr(mod, "COQ_FILES", []) if f in build_log and ("%s" % f) in "\n".join(
-            l for l in build_log.split("\n") if l.startswith("File "))]
-        if rel:
-            rep.violation({"kind": "proof-build", "files": rel}, {"broken": "coq files %s no longer compile" % rel,
-                          "log": build_log[-3000:]}, found_input=False)
+    rep.fn_found = bool(groups)
 
     # evidence
     hist = collections.Counter()
@@ -182,11 +160,7 @@ def run(mod, tier, seed, replay=None):
             seen_cls.add(k)
             samples.append({"case": c.line()[:300], "impl": impl[i][:200], "model": model[i][:200],
                             "oracle": verdict.get(i, "-")})
-    rep.coverage = {
-        "obligations": len(thms), "discharged": n_ok,
-        "theorems": thms,
-        "checker_cmd": "cd /verif/coq && make -j16 && coqc -Q ... Props/%s.v  (full .vo build; Print Assumptions under every theorem)" % pid,
-        "trusted_base": TRUSTED_BASE,
+    return {
         "evaluations": len(cases), "distinct_nontrivial": distinct,
         "rule": mod.RULE,
         "samples": samples,
@@ -194,7 +168,6 @@ def run(mod, tier, seed, replay=None):
         "model_vs_impl_mismatches": len(mism), "oracle_evaluations": len(olines) + n_py,
         "oracle_failures": sum(len(v) for v in groups.values()), "impl_panics": len(panics),
     }
-    return rep.finish()
 
 
 def _known(rep, pid, c, op, v):
